@@ -300,7 +300,8 @@ def deTupleLike : TyList → Value → DeRes Data
     if Value.isList (.cons a d) then do let ds ← deTupleList ts (some (a, d)); pure (.seq ds)
     else .dataErr
   | _, _ => .dataErr
-/-- tuple variant payload: `deserialize_seq` with a fixed-length visitor -/
+/-- `deserialize_seq` with a fixed-length visitor: what `tuple_variant` called BEFORE its repair (it now
+    calls `deserialize_tuple` = `deTupleLike`); kept as the witness of the old behaviour, not used by `de` -/
 def deTupleSeq : TyList → Value → DeRes Data
   | ts, .null => do let ds ← deTupleVec ts []; pure (.seq ds)
   | ts, .vector xs => do let ds ← deTupleVec ts xs; pure (.seq ds)
@@ -335,7 +336,7 @@ def deVariant : VariantList → Nat → List UInt8 → Option Value → DeRes Da
       match var, payload with
       | .unit, _ => .ok (.variant i .unit)
       | .newtype t, some p => do let d ← de t p; pure (.variant i d)
-      | .tuple ts, some p => do let d ← deTupleSeq ts p; pure (.variant i d)
+      | .tuple ts, some p => do let d ← deTupleLike ts p; pure (.variant i d)
       | .struct fs, some p => do
         let d ← deStructLike (deField fs) fs.optFlags p
         pure (.variant i d)
